@@ -718,3 +718,33 @@ Definition form_string_back (optional : bool) (dflt : option string) (sent : str
   if String.eqb sent "" then
     match dflt with Some d => Some d | None => if optional then Some EmptyString else None end
   else Some sent.
+
+(* ------------------------------------------------------------------ httpx.Parse on a constructed request
+   GetFormValues (api/httpx/utils.go:8-28): the FIRST value of every form key, dropped only when it is empty -- no
+   trimming: blanks, tabs and newlines are data.  encoding.ParseHeaders (api/internal/encoding/parser.go): a key
+   with exactly one value maps to that string, any other value list (several, none, nil) to the list itself. *)
+Definition form_doc (pairs : list (string * list jv)) : jv :=
+  JObj (flat_map (fun kv =>
+          match snd kv with
+          | JStr s pj :: _ => if String.eqb s "" then [] else [(fst kv, JStr s pj)]
+          | _ => []
+          end) pairs).
+
+Definition header_doc (pairs : list (string * option (list jv))) : jv :=
+  JObj (map (fun kv => (fst kv, match snd kv with
+                                | Some [v] => v
+                                | Some vs => JArr vs
+                                | None => JArr []          (* a nil []string: fillSlice leaves the field nil *)
+                                end)) pairs).
+
+(* ------------------------------------------------------------------ reader entry points (jsonunmarshal.go:23-50,
+   yamlunmarshaler.go:20-27): the reader is consumed to its end and the bytes variant's work is done on what was
+   read.  `decode` is the tokeniser (encoding/json with UseNumber, resp. yaml.v2 + YamlToJson), a parameter. *)
+Section Readers.
+  Variable decode : string -> option jv.
+  Definition unmarshal_bytes (n : nat) (t : ty) (content : string) : result val :=
+    match decode content with Some d => unmarshal n t d | None => Err E_parse end.
+  (* a reader delivers its content in chunks; a drained reader delivers none *)
+  Definition unmarshal_reader (n : nat) (t : ty) (chunks : list string) : result val :=
+    unmarshal_bytes n t (fold_right append EmptyString chunks).
+End Readers.
